@@ -350,6 +350,13 @@ def callforms():
                     forms.append(("pos", v))
                 for form, val in forms:
                     out[f"CF/{mod}.{attr}/{p_.name}={val!r}/{form}"] = (mod, attr, len(req), p_.name, val, form)
+                if isinstance(v, int) and not isinstance(v, bool):
+                    # the same argument as a NumPy integer scalar / a one-element tuple: library functions
+                    # accept any integer-like (operator.index), a substitute that dispatches on `int` does not
+                    out[f"CF/{mod}.{attr}/{p_.name}=np.int64({v!r})/kw"] = (mod, attr, len(req), p_.name, ("NPINT", v), "kw")
+                    if p_.name == "axis":
+                        out[f"CF/{mod}.{attr}/{p_.name}=({v!r},)/kw"] = (mod, attr, len(req), p_.name, (v,), "kw")
+                        out[f"CF/{mod}.{attr}/{p_.name}=[{v!r}]/kw"] = (mod, attr, len(req), p_.name, ("LIST", v), "kw")
         # ALL optional arguments non-default at once (keyword form).  Candidate values per parameter; the
         # un-patched library function itself decides which combination is a valid call (evaluated
         # eagerly on a sample operand), preferring combinations whose result differs from the default
@@ -409,6 +416,12 @@ def _valid_all_forms(orig, nreq, cands, limit=2, max_tries=48):
 def _materialise(v):
     import numpy as np
 
+    if isinstance(v, tuple) and len(v) == 2 and v[0] == "NPINT":
+        return np.int64(v[1])
+    if isinstance(v, tuple) and len(v) == 2 and v[0] == "LIST":
+        return [v[1]]
+    if isinstance(v, tuple):
+        return v
     if v == "ARRAY_F":
         return np.array([[0.5, 1.5, 2.0], [1.0, 0.25, 3.0]], dtype=np.float32)
     if v == "ARRAY_B":
@@ -423,7 +436,9 @@ def list_jobs(tier):
     alls = [i for i in ids if i.startswith("CFA/")]
     if tier == "thorough":
         return ids
-    return singles[:: max(1, len(singles) // 260)] + pairs[:: max(1, len(pairs) // 200)] + alls
+    typed = [i for i in singles if "np.int64(" in i or "=(" in i or "=[" in i]
+    plain = [i for i in singles if i not in set(typed)]
+    return plain[:: max(1, len(plain) // 260)] + typed + pairs[:: max(1, len(pairs) // 200)] + alls
 
 
 def run_job(job, tier):
@@ -449,7 +464,14 @@ def run_job(job, tier):
     r["callform"] = {"target": f"{mod}.{attr}", "param": "+".join(pname) if isinstance(pname, tuple) else pname, "value": repr(val), "form": form}
     if r.get("status") == "export_failed":
         reason = r.get("reason") or ""
-        binding_failure = (reason.startswith("TypeError") and any(k in reason for k in ("argument", "positional", "keyword"))) or (reason.startswith("ValueError") and "unpack" in reason)
+        low = reason.lower()
+        explicit = reason.startswith("NotImplementedError") or "not supported" in low or "unsupported" in low or "not implemented" in low
+        # JAX traced this very call without the converter's substitutes (the reference succeeded); a
+        # TypeError / AttributeError / KeyError / IndexError out of the substitute is a rejected valid
+        # call, unless the message says explicitly that the feature is unsupported
+        binding_failure = not explicit and (
+            reason.startswith(("TypeError", "AttributeError", "KeyError", "IndexError")) or (reason.startswith("ValueError") and "unpack" in reason)
+        )
         if binding_failure:
             # JAX accepted the call (the reference trace succeeded) but the tracing-time substitute
             # cannot bind it and the error is not an explicit unsupported-feature message
@@ -495,7 +517,9 @@ def main(tier):
             cfm = r.get("callform") or {}
             w = r.get("witness") or {}
             cls = "call_rejected" if r.get("kind") == "call_rejected" else "ignored_or_misbound"
-            key = f"{cfm.get('target')}|{cls}:{cfm.get('param')}|{cfm.get('form')}"
+            vr = str(cfm.get("value"))
+            vkind = "npint" if "NPINT" in vr else ("list" if "LIST" in vr else ("tuple" if vr.startswith("(") and cfm.get("form") == "kw" else "plain"))
+            key = f"{cfm.get('target')}|{cls}:{cfm.get('param')}" + (f"[{vkind}]" if vkind != "plain" else "") + f"|{cfm.get('form')}"
             m = re.search(r"unexpected keyword argument '(\w+)'", str(w.get("why")))
             if cls == "call_rejected" and m:
                 # the same call-site defect part 1 reports from the signatures (one key per parameter)
